@@ -585,6 +585,8 @@ def failure_reasons(case, root, ob):
         prog = case["files"][rel]
         for h in (prog or {}).get("imports", []):
             hp = case["files"].get(h + ".py")
+            if hp is None:
+                reasons.append(f"{rel}: imports {h}.py which does not exist (the module raises while it is imported)")
             if hp is not None and any(st["k"] == "wrap" for st in hp["stmts"]) and (h + ".py") not in collected:
                 reasons.append(f"{rel}: imports {h}.py whose @task functions belong to no task module")
     keys = Counter()
@@ -973,7 +975,7 @@ def random_case(rng, cid, focus=None):
                 ["TASK_*.py"], ["Task_*.py", "task_*.py"], ["nomatch_*.py"], [f"{some_dir.upper()}/*.py", "task_y.py"],
                 ["*/*.py"], [f"{some_dir}/mod_*.py", f"{some_dir}/x_*.py"], ["./task_*.py"], [f"{some_dir}/"]]
         task_files = rng.choice(pool)
-    if task_files is not None and "helper_a.py" in files and matches("/p/helper_a.py", task_files):
+    if task_files is not None and "helper_a.py" in files and matches(f"/x/{ROOTNAME}/helper_a.py", task_files):
         # the helper is executed by the harness' own loader; it must not also be a task module (it would run twice)
         del files["helper_a.py"]
         for pr in files.values():
@@ -1188,6 +1190,8 @@ def model_applicable(case) -> bool:
     are judged by the oracle only."""
     if any(pt.get("kind") == "twp" for pt in case.get("ptasks") or []):
         return False
+    if any(h + ".py" not in case["files"] for pr in case["files"].values() if pr is not None for h in pr.get("imports", [])):
+        return False    # a module that raises while it is imported (assumption of the model: modules import without errors)
     return not any(st["k"] == "gen" for pr in case["files"].values() if pr is not None for st in pr["stmts"])
 
 
@@ -1428,6 +1432,9 @@ def shrink_candidates(case):
             continue
         c = json.loads(json.dumps(case))
         del c["files"][f]
+        for pr in c["files"].values():       # a deleted helper module is no longer imported
+            if pr is not None and f.endswith(".py") and "/" not in f:
+                pr["imports"] = [h for h in pr.get("imports", []) if h + ".py" != f]
         c["paths"] = [p for p in c["paths"] if p != f]
         if c["paths"]:
             yield c
